@@ -57,8 +57,9 @@ def parseServiceData (p : List Nat) : Except Err (Option Rec) :=
 /-- `parse_adv` = `matter_service_data(adv).and_then(parse_service_data)` -/
 def parseAdv (adv : List Nat) : Except Err (Option Rec) :=
   match BleAdv.matterServiceData (adv.length + 1) adv with
-  | none => .ok none
-  | some d => parseServiceData d
+  | .error _ => .error .panic   -- failed checked split / fuel exhausted: shown impossible (`BleAdv.matterServiceData_ok`)
+  | .ok none => .ok none
+  | .ok (some d) => parseServiceData d
 
 /-- the Rust type: eight bytes -/
 def WF (a : Rec) : Prop := a.id.length = RECOVERY_ID_LEN
